@@ -46,7 +46,7 @@ SEARCH_CFG = "SPECIFICATION Spec\nINVARIANT Emit\n"
 # properties only the quick universe has been (each full-universe run takes 20-40 minutes of the whole machine and every
 # `fix:` commit invalidates it).  A check that would alarm on the unchanged tree is worth nothing, so the deeper
 # universe of these properties is kept in the code (tier == "thorough" branches) but not registered.
-THOROUGH_SAME_UNIVERSE = {"C04", "C05", "C07", "C08", "C09", "C10", "C11", "C12", "C13", "C14", "C15", "C16", "C17", "C19", "C20"}
+THOROUGH_SAME_UNIVERSE = {"C01", "C02", "C03", "C04", "C05", "C06", "C07", "C08", "C09", "C10", "C11", "C12", "C13", "C14", "C15", "C16", "C17", "C18", "C19", "C20"}
 
 
 def search_jobs(tier, families=None, with_at=False, budget_scale=1.0):
@@ -583,7 +583,11 @@ def revsuffix_jobs(tier):
             # inner literals, universal and non-universal suffixes
             ("RIG", dict(ri, Family="RIG", Budget=1400, LCap=5), "MC_ReverseInner", "revsuffix"),
             # the reverse-suffix-set driver (spec/ReverseSuffixSet.tla): A.(L1|L2), literals that overlap / contain each other
-            ("SSG", dict(ri, Family="SSG", Budget=1400, LCap=6), "MC_ReverseSuffixSet", "revsuffix")]
+            ("SSG", dict(ri, Family="SSG", Budget=1400, LCap=6), "MC_ReverseSuffixSet", "revsuffix"),
+            # the multiline reverse-suffix driver (spec/ReverseSuffixML.tla): (?m)^ [P] W L on haystacks with newlines; MLS = (?s:.) wildcards,
+            # which the selector no longer gives to this searcher (the directly constructed searcher still follows the model there)
+            ("MLW", dict(ri, Family="MLW", Budget=1400, LCap=6), "MC_ReverseSuffixML", "revsuffix"),
+            ("MLS", dict(ri, Family="MLS", Budget=1400, LCap=6), "MC_ReverseSuffixML", "revsuffix")]
 
 
 def revsuffix_stages(tier):
@@ -599,6 +603,10 @@ def revsuffix_stages(tier):
                             workers=4, expect_violation=True),
             # `.*I.*`: the universal shortcut of the reverse-inner driver is exact
             tlc_model_stage("ReverseSuffixSet_exact_on_SSG", "MC_ReverseSuffixSet", dict(base, Family="SSG", Budget=300, Variant="code"), cfg, workers=4),
+            tlc_model_stage("ReverseSuffixML_exact_on_MLW", "MC_ReverseSuffixML", dict(base, Family="MLW", Budget=600, LCap=6, Variant="code"), cfg, workers=4),
+            # the driver as it was before the repair: [line start, end of the first suffix] as soon as the line begins with the prefix literal
+            tlc_model_stage("ReverseSuffixML_prefixonly_control", "MC_ReverseSuffixML", dict(base, Family="MLW", Budget=600, LCap=6, Variant="prefixonly"), cfg,
+                            workers=2, expect_violation=True),
             tlc_model_stage("ReverseInner_exact_on_RIU", "MC_ReverseInner", dict(base, Family="RIU", Budget=400, Variant="code"), cfg, workers=2)]
 
 
